@@ -570,6 +570,11 @@ class RoiSubsetStateNd(SubsetState):
         if not self.roi.defined():
             return np.zeros(raw_comps[0].shape, dtype=bool)
 
+        if raw_comps[0].size == 0:
+            # Nothing to test (e.g. an empty view): in particular there
+            # would be no chunk to hand to a pretransform below
+            return np.zeros(res_shape, dtype=bool)
+
         if raw_comps[0].ndim == data.ndim and all([att in data.pixel_component_ids for att in self._atts]):
             # This is a special case - the ROI is defined in pixel space, so we
             # can apply it to a single slice and then broadcast it to all other
